@@ -117,6 +117,10 @@ type c07Part struct {
 
 // c07Build lays out header + parts with padding bytes and spare capacity set
 // to filler, in an exact allocation of len+slack bytes.
+// c07TypeHi is OR-ed into the first header byte: the two leading type bits are tolerated by Decode and
+// must survive every getter/checker untouched.
+var c07TypeHi byte
+
 func c07Build(parts []c07Part, tid [12]byte, slack int, filler func(i int) byte) []byte {
 	n := 20
 	for _, p := range parts {
@@ -126,7 +130,7 @@ func c07Build(parts []c07Part, tid [12]byte, slack int, filler func(i int) byte)
 	for i := range back {
 		back[i] = filler(i)
 	}
-	back[0], back[1] = 0x01, 0x01
+	back[0], back[1] = 0x01|c07TypeHi, 0x01
 	back[2], back[3] = byte((n-20)>>8), byte(n-20)
 	back[4], back[5], back[6], back[7] = 0x21, 0x12, 0xA4, 0x42
 	copy(back[8:20], tid[:])
@@ -148,6 +152,83 @@ var c07Fillers = []func(i int) byte{
 }
 
 var c07Slacks = []int{0, 1, 2, 3, 4, 8, 64}
+
+// c07Reused: the same call with a destination value that was used before (on a full-length value of the
+// other family, then of the same family) must give the outcome of a fresh destination.
+func c07Reused(gi, l, class int) (key, detail string) {
+	g := c07Getters[gi]
+	var call func(m *stun.Message, fresh bool) string
+	full4 := []byte{0, 1, 0x30, 0x39, 9, 8, 7, 6}
+	full6 := []byte{0, 2, 0x30, 0x39, 1, 2, 3, 4, 5, 6, 7, 8, 9, 10, 11, 12, 13, 14, 15, 16}
+	prime := func(get func(m *stun.Message) error) {
+		for _, v := range [][]byte{full6, full4, full6} {
+			pm := &stun.Message{Raw: c07Build([]c07Part{{Type: g.Attr, Value: v}}, c07TID, 8, func(int) byte { return 0 })}
+			if pm.Decode() == nil {
+				_ = get(pm)
+			}
+		}
+	}
+	switch g.Attr {
+	case 0x0020, 0x0012:
+		call = func(m *stun.Message, fresh bool) string {
+			var a stun.XORMappedAddress
+			if !fresh {
+				prime(func(pm *stun.Message) error { return a.GetFromAs(pm, stun.AttrType(g.Attr)) })
+			}
+			err := a.GetFromAs(m, stun.AttrType(g.Attr))
+			return addrOut(a.IP, a.Port, err)
+		}
+	case 0x0001:
+		call = func(m *stun.Message, fresh bool) string {
+			var a stun.MappedAddress
+			if !fresh {
+				prime(a.GetFrom)
+			}
+			err := a.GetFrom(m)
+			return addrOut(a.IP, a.Port, err)
+		}
+	case 0x8023:
+		call = func(m *stun.Message, fresh bool) string {
+			var a stun.AlternateServer
+			if !fresh {
+				prime(a.GetFrom)
+			}
+			err := a.GetFrom(m)
+			return addrOut(a.IP, a.Port, err)
+		}
+	case 0x802b:
+		call = func(m *stun.Message, fresh bool) string {
+			var a stun.ResponseOrigin
+			if !fresh {
+				prime(a.GetFrom)
+			}
+			err := a.GetFrom(m)
+			return addrOut(a.IP, a.Port, err)
+		}
+	case 0x802c:
+		call = func(m *stun.Message, fresh bool) string {
+			var a stun.OtherAddress
+			if !fresh {
+				prime(a.GetFrom)
+			}
+			err := a.GetFrom(m)
+			return addrOut(a.IP, a.Port, err)
+		}
+	default:
+		return "", ""
+	}
+	var o1, o2 string
+	if p := catch(func() {
+		o1 = call(c07Message(gi, l, class, 0, 4, 0), true)
+		o2 = call(c07Message(gi, l, class, 0, 4, 0), false)
+	}); p != "" {
+		return "panic/" + g.Name, p
+	}
+	if o1 != o2 {
+		return "depends-on-destination-history/" + g.Name, fmt.Sprintf("%s on a %d-byte value (class %d): fresh destination gives %q, a destination used before gives %q", g.Name, l, class, clipS(o1), clipS(o2))
+	}
+	return "", ""
+}
 
 type c07Case struct {
 	Getter  int    `json:"getter"`
@@ -309,6 +390,9 @@ func init() {
 						if !c.Mine(fam) {
 							continue
 						}
+						if key, detail := c07Reused(gi, l, class); key != "" {
+							c.Violation(key, detail, c07Case{Getter: gi, Len: l, Class: class, Pos: -7, Pos2: -1, Seed: c.Seed})
+						}
 						first := ""
 						var f0 [3]int
 						have := false
@@ -320,6 +404,8 @@ func init() {
 							np = 3
 						}
 						for pos := 0; pos < np; pos++ {
+							// leading type bits: part of the covered span of the checkers, so fixed per twin family
+							c07TypeHi = []byte{0x00, 0xC0, 0x40, 0x80}[(l+class)%4]
 							for _, slack := range c07Slacks {
 								for filler := range c07Fillers {
 									c.Eval(1)
@@ -351,6 +437,7 @@ func init() {
 					}
 				}
 			}
+			c07TypeHi = 0
 			c.Extra("getters", len(c07Getters))
 			c.Extra("value_lengths", "0..40")
 		},
@@ -360,7 +447,14 @@ func init() {
 				c.Fail("%v", err)
 			}
 			c07Fillers[3] = func(i int) byte { return byte(int64(i)*131 + k.Seed*89 + 0x3c) }
+			c07TypeHi = []byte{0x00, 0xC0, 0x40, 0x80}[(k.Len+k.Class)%4]
 			g := c07Getters[k.Getter]
+			if k.Pos == -7 {
+				if key, detail := c07Reused(k.Getter, k.Len, k.Class); key != "" {
+					c.Violation(key, detail, k)
+				}
+				return
+			}
 			out, key, detail := c07Eval(k.Getter, k.Len, k.Class, k.Pos, k.Slack, k.Filler)
 			if key != "" {
 				c.Violation(key, detail, k)
